@@ -1714,6 +1714,35 @@ class Exec(Interp):
                     s_acc, acc = s_new, v_new
                 if stable:
                     return [(s_acc, acc)]
+        if name in ('try_from', 'try_into') and not c.get('local') and A and A[0][0] == 'int':
+            # std's checked numeric conversions: Ok(same value) when it fits the destination, Err otherwise
+            dtj = fr.body.locals[t['dest']['l']]['tyj'] if not t['dest']['p'] else None
+            okty = None
+            if dtj and dtj.get('t') == 'adt' and dtj.get('args'):
+                a0_ = dtj['args'][0]
+                okty = a0_.get('n') if isinstance(a0_, dict) and a0_.get('t') == 'int' else None
+            if okty in INT_RANGE:
+                lo, hi = self.rng(st, A[0][2])
+                tl, th = INT_RANGE[okty]
+                outs_ = []
+                if hi >= tl and lo <= th:
+                    s_ok = st.copy()
+                    try:
+                        v_ok = ('int', okty, A[0][2])
+                        if lo < tl or hi > th:
+                            s_ok.iv[A[0][2]] = (max(lo, tl), min(hi, th))
+                        outs_.append((s_ok, self.mk_result(s_ok, v_ok, None)))
+                    except Infeasible:
+                        pass
+                if lo < tl or hi > th:
+                    s_er = st.copy()
+                    outs_.append((s_er, self.mk_result(s_er, None, ('top', 'err'))))
+                if outs_:
+                    return outs_
+        if name in ('find', 'position', 'rposition', 'find_map', 'max_by', 'min_by', 'nth', 'first', 'last', 'split_first', 'split_last') and \
+                ('Iterator' in (tr or d) or d.startswith('core::slice::')) and not c.get('local'):
+            # searching consumers: any element or none (closures passed to them are assumed not to panic beyond what they would when run alone)
+            return [(st, self.dest_top(st, fr, t))]
         if name in ('sum', 'product', 'fold', 'count', 'contains', 'mul_add', 'cmp', 'partial_cmp', 'collect', 'map', 'rev', 'zip', 'enumerate',
                     'next', 'copied', 'cloned', 'skip', 'take', 'all', 'any', 'for_each', 'reduce', 'windows', 'step_by', 'first', 'last',
                     'get', 'get_unchecked', 'get_unchecked_mut', 'sort_unstable_by', 'sort_unstable_by_key', 'sort_by', 'sort_by_key', 'sort_unstable', 'sort',
